@@ -157,6 +157,10 @@ type result struct {
 	CdrFiles      map[string]string                 `json:"cdrfiles"`
 	Notifications []notif                           `json:"notifications"`
 	Goroutines    int                               `json:"goroutines"`
+	RfConns       int                               `json:"rfConns"`
+	AbmfConns     int                               `json:"abmfConns"`
+	Suas          int64                             `json:"suas"`
+	Ccas          int64                             `json:"ccas"`
 	Sub           []*result                         `json:"sub,omitempty"`
 	ErrLog        []string                          `json:"errlog,omitempty"`
 }
@@ -350,6 +354,7 @@ func main() {
 	volumeLimitPDU := flag.Int("volume-limit-pdu", 0, "configuration.volumeLimitPDU")
 	quotaValidity := flag.Int("quota-validity", 0, "configuration.quotaValidityTime")
 	oauth := flag.Bool("oauth", false, "set OAuth2Required in the CHF context")
+	countAns := flag.Bool("countanswers", false, "count the Diameter answers received by the CHF's clients (trace log level)")
 	errlog := flag.Bool("errlog", false, "add the CHF's error-level log lines of each op as \"errlog\"")
 	logFile := flag.String("log", "", "write the CHF log (debug level) to this file (must be inside -dir)")
 	flag.Parse()
@@ -364,6 +369,7 @@ func main() {
 		QuotaValidityTime: int32(*quotaValidity),
 		OAuth2Required:    *oauth,
 		CaptureErrors:     *errlog,
+		CountAnswers:      *countAns,
 	}
 	for _, s := range strings.Split(*services, ",") {
 		if s = strings.TrimSpace(s); s != "" {
@@ -557,4 +563,6 @@ func observe(st *stack.Stack, tracker *cdrTracker, res *result, o *op, waitNotif
 	}
 	res.ErrLog = st.DrainErrorLogs()
 	res.Goroutines = runtime.NumGoroutine()
+	res.RfConns, res.AbmfConns = st.PeerConns()
+	res.Suas, res.Ccas = st.Answers()
 }
